@@ -49,12 +49,22 @@ def run_case(job):
     dim = c["dim"]
     key = f"{phys}{dim}D/{elem}/{c['kind']}/{c['region']}/{c['dens'][0]}/{c['form']}" + ("/stray" if c["stray"] else "") + ("/dup" if c.get("dup") else "")
     viol = []
+    vec = phys != "thermal"
+    kw = {}
     try:
         mesh = box_mesh(dim, elem)
         th = f2(c["thick"])
         with quiet():
-            if phys == "elastic":
-                sim = Simulations.Elastic(mesh, Models.Elastic.Isotropic(dim, E=10.0, v=0.3, planeStress=True, thickness=th), verbosity=False)
+            if vec:
+                mat = Models.Elastic.Isotropic(dim, E=10.0, v=0.3, planeStress=(phys != "phasefield"), thickness=th)
+                if phys == "elastic":
+                    sim = Simulations.Elastic(mesh, mat, verbosity=False)
+                elif phys == "phasefield":
+                    PF = Models.PhaseField
+                    sim = Simulations.PhaseField(mesh, PF(mat, PF.SplitType.Miehe, PF.ReguType.AT2, Gc=1.0, l0=0.5), verbosity=False)
+                    kw = {"problemType": "elastic"}  # the displacement problem of the two-field simulation, named explicitly
+                else:
+                    sim = Simulations.HyperElastic(mesh, Models.HyperElastic.NeoHookean(dim, K=10.0, thickness=th), verbosity=False)
                 unk = ["x", "y", "z"][:dim]
                 dens = [POLY[c["dens"][0]], POLY[c["dens"][1]], POLY["one"]][:dim]
             else:
@@ -70,43 +80,43 @@ def run_case(job):
             nodes = np.concatenate([nodes, nodes[:2]])  # the same region, two nodes listed twice
         Xn = mesh.coord[nodes]
         if c["form"] == "const":
-            vals = [1.0, 0.0, 1.0][: len(unk)] if phys == "elastic" else [1.0]
+            vals = [1.0, 0.0, 1.0][: len(unk)] if vec else [1.0]
         elif c["form"] == "func":
             vals = dens
         else:
             vals = [d(Xn[:, 0], Xn[:, 1], Xn[:, 2]) for d in dens]
         with quiet():
             if c["kind"] == "lineLoad":
-                sim.add_lineLoad(nodes, vals, unk)
+                sim.add_lineLoad(nodes, vals, unk, **kw)
             elif c["kind"] == "surfLoad":
-                sim.add_surfLoad(nodes, vals, unk)
+                sim.add_surfLoad(nodes, vals, unk, **kw)
             elif c["kind"] == "volumeLoad":
-                sim.add_volumeLoad(nodes, vals, unk)
+                sim.add_volumeLoad(nodes, vals, unk, **kw)
             elif c["kind"] == "pressure":
-                if phys != "elastic":
+                if not vec:
                     return {"viol": [], "n": 0, "keys": [], "traces": 0}
-                sim.add_pressureLoad(nodes, 1.0)
+                sim.add_pressureLoad(nodes, 1.0, **kw)
             elif c["kind"] == "point":
                 if c["form"] == "array":
                     # the total given as nodal arrays, the SAME array object for the first two unknowns, entered twice with a
                     # Bc_Init() in between (load stepping): the input is not the library's to modify
                     f = np.full(len(nodes), 5.0)
                     g_ = np.full(len(nodes), -2.0)
-                    pv = ([f, f, g_][: len(unk)] if phys == "elastic" else [f])
-                    sim.add_neumann(nodes, pv, unk)
+                    pv = ([f, f, g_][: len(unk)] if vec else [f])
+                    sim.add_neumann(nodes, pv, unk, **kw)
                     sim.Bc_Init()
-                    sim.add_neumann(nodes, pv, unk)
+                    sim.add_neumann(nodes, pv, unk, **kw)
                     if not (np.all(f == 5.0) and np.all(g_ == -2.0)):
                         viol.append((f"input-modified/{key}", f"{key}: the nodal array given to add_neumann was modified in place (now {f[:3]}...)", {"case": case, "elem": elem}))
                 else:
-                    sim.add_neumann(nodes, [5.0, -2.0, 0.0][: len(unk)] if phys == "elastic" else [5.0], unk)
-        F = sim.Bc_vector_Neumann().reshape(mesh.Nn, -1)
+                    sim.add_neumann(nodes, [5.0, -2.0, 0.0][: len(unk)] if vec else [5.0], unk, **kw)
+        F = sim.Bc_vector_Neumann(*kw.values()).reshape(mesh.Nn, -1)
         R = F.sum(0)
         exp = np.array([f2(q) for q in case["resultant"]])[: len(unk)]
-        if c["kind"] == "point" and phys == "elastic" and dim == 3:
+        if c["kind"] == "point" and vec and dim == 3:
             exp = np.array([5.0, -2.0, 0.0])
         if c["kind"] == "point" and c["form"] == "array":
-            exp = np.array([5.0, 5.0, -2.0][: len(unk)]) if phys == "elastic" else np.array([5.0])
+            exp = np.array([5.0, 5.0, -2.0][: len(unk)]) if vec else np.array([5.0])
         sc = max(np.abs(exp).max(), 1.0)
         if c["kind"] == "pressure":
             # magnitude pressure x area (x thickness), directed along the face normal (sign convention of the library aside)
@@ -126,7 +136,8 @@ def run_case(job):
         import traceback
 
         viol.append((f"raises/{key}", f"{key}: {type(ex).__name__}: {ex} | {traceback.format_exc()[-300:]}", {"case": case, "elem": elem}))
-    return {"viol": viol, "n": 1, "keys": [(phys, dim, elem, c["kind"], c["region"], c["dens"][0], c["form"], c["stray"], c.get("dup"), tuple(c["thick"]))], "traces": 1}
+    return {"viol": viol, "n": 1, "keys": [(phys, dim, elem, c["kind"], c["region"], c["dens"][0], c["form"], c["stray"], c.get("dup"), tuple(c["thick"]))], "traces": 1,
+            "cls": type(sim).__name__ if "sim" in dir() else None, "phys": phys}
 
 
 def beam_loads(ctx, cases):
@@ -194,7 +205,17 @@ def run(ctx):
             jobs.append((i, c, elem, "elastic"))
             if c["cfg"]["kind"] != "pressure" and (ctx.thorough or i % 3 == 0):
                 jobs.append((i, c, elem, "thermal"))
-    ctx.pmap(run_case, jobs, chunksize=16)
+            # the other simulation types that accept the loads: the displacement problem of PhaseField, HyperElastic
+            if (ctx.thorough or i % 4 == 1) and elem in ("TRI3", "QUAD4", "TETRA4", "HEXA8", "PRISM6"):
+                jobs.append((i, c, elem, "phasefield"))
+                jobs.append((i, c, elem, "hyperelastic"))
+    outs = ctx.pmap(run_case, jobs, chunksize=16)
+    built = {(o["phys"], o["cls"]) for o in outs if o and o.get("cls")}
+    want = {("elastic", "Elastic"), ("thermal", "Thermal"), ("phasefield", "PhaseField"), ("hyperelastic", "HyperElastic")}
+    if not want <= built:
+        from harness.core import MachineryError
+
+        raise MachineryError(f"vacuous load replay: simulation classes actually built {sorted(built)}, expected {sorted(want)}")
     beam_loads(ctx, beamcases)
     if not beamcases:
         from harness.core import MachineryError
